@@ -76,6 +76,9 @@ def _store_stage_setup(which):
         ctx.extra["entry_version"] = I.ops.as_int(I.getattr(stage, "version"))
         ctx.extra["entry_status"] = I.getattr(stage, "status").t
         ctx.extra["stage_key"] = I.getattr(stage, "id").t
+        if which == "plain":
+            ctx.extra["plain"] = True
+            I.st.ghost["the_conn"] = conn
         if which == "txn":
             rec = I.st.objs[ctx.self_val.oid]
             rec.fields["_conn"] = conn
@@ -148,7 +151,11 @@ def _store_stage_post(ctx):
     frame_cols = [c for c in cur.schema.cols if c not in ("status", "context", "outputs", "start_time", "end_time", "version")]
     existed_frame = z3.Implies(existed, z3.And(*[z3.Select(cur.cols[c], key) == z3.Select(ent.col(c), key) for c in frame_cols]))
     goals.append(("frame.other-columns-unchanged", existed_frame))
-    goals.append(("commit-free", z3.BoolVal(not [e for e in ctx.st.effects if e.kind in ("db_commit", "db_rollback")])))
+    commits = [e for e in ctx.st.effects if e.kind in ("db_commit", "db_rollback")]
+    if ctx.self_val is not None and ctx.extra.get("plain"):
+        goals.append(("commits-once-on-success-only", z3.BoolVal(len(commits) == (1 if ctx.exc is None else 0))))
+    else:
+        goals.append(("commit-free", z3.BoolVal(not commits)))
     return goals
 
 
@@ -195,6 +202,14 @@ def store_stage_units():
     out.append(Unit(prop="*", name="L1/AtomicTransaction.store_stage", func=P + "transaction:AtomicTransaction.store_stage",
                     self_type=("obj", "AtomicTransaction"), setup=_store_stage_setup("txn"), requires=[valid_rows],
                     obligations=obls + [Obl("C07/version-tracking", _staged_before_bump, when="any")], **common))
+    common2 = dict(common)
+    reg2 = sql_registry()
+    reg2.contracts["*._get_connection"] = lambda I, a, k: I.st.ghost["the_conn"]
+    common2["registry"] = reg2
+    out.append(Unit(prop="*", name="L1/SqliteStageOpsMixin.store_stage", func=P + "store.stage_ops:SqliteStageOpsMixin.store_stage",
+                    self_type=("obj", "SqliteWorkflowStore"), setup=_store_stage_setup("plain"), requires=[valid_rows],
+                    obligations=[Obl("C07/G-stage/plain", _g_stage, when="any"), Obl("C07/store_stage/plain", _store_stage_post, when="any"),
+                                 Obl("C04/cas/plain", _g_stage, when="any"), Obl("C06/durable-write-is-guarded/plain", _g_stage, when="any")], **common2))
     return out
 
 
